@@ -120,6 +120,7 @@ func (c *Cluster) handle(req *Request) *Reply {
 				if d != nil {
 					d.Hold = rep.HoldDefault
 					d.Delay += rep.Delay
+					d.AfterSend = rep.AfterSend
 				}
 				return d
 			}
@@ -425,6 +426,11 @@ func (c *Cluster) handleMulti(req *Request) *Reply {
 		c.mu.Lock()
 		if c.PermuteMulti {
 			c.rng.Shuffle(len(ones), func(i, j int) { ones[i], ones[j] = ones[j], ones[i] })
+		}
+		if c.ReverseMulti {
+			for i, j := 0, len(ones)-1; i < j; i, j = i+1, j-1 {
+				ones[i], ones[j] = ones[j], ones[i]
+			}
 		}
 		c.mu.Unlock()
 		for _, o := range ones {
